@@ -24,6 +24,7 @@
  */
 #include <stdio.h>
 #include <stdlib.h>
+#include <stddef.h>
 #include <string.h>
 #include "particle.h"
 #include "rebound.h"
@@ -225,6 +226,10 @@ int reb_binary_diff(char* buf1, size_t size1, char* buf2, size_t size2, char** b
                 struct reb_particle* pb2 = (struct reb_particle*)(buf2+pos2);
                 for (unsigned int i=0;i<field1.size/sizeof(struct reb_particle);i++){
                     fields_differ |= reb_particle_diff(pb1[i],pb2[i]);
+                    if (output_option==0){
+                        // A delta has to reproduce the exact bits. Values that compare equal can differ in their bits (-0. and 0.).
+                        fields_differ |= (memcmp(buf1+pos1+i*sizeof(struct reb_particle), buf2+pos2+i*sizeof(struct reb_particle), offsetof(struct reb_particle, c))!=0);
+                    }
                 }
             }else if (strcmp(reb_binary_field_descriptor_for_type(field1.type).name, "var_config")==0){
                 // Compare all members except the pointer to the simulation (an address, not a property of the simulation).
